@@ -27,6 +27,7 @@ var ErrOccupantInUse = errors.New("muc: occupant JID is in use by another channe
 type joinCtx struct {
 	done <-chan struct{}
 	j    chan<- jid.JID
+	key  string // the occupant JID that was requested
 }
 
 // Channel represents a group chat, conference, or chatroom.
@@ -52,11 +53,20 @@ type Channel struct {
 
 // Addr returns the address of the channel.
 func (c *Channel) Addr() jid.JID {
-	return c.addr.Bare()
+	return c.occupant().Bare()
 }
 
 // Me returns the users last-known address in the channel.
 func (c *Channel) Me() jid.JID {
+	return c.occupant()
+}
+
+// occupant returns the occupant JID the channel currently holds. It changes
+// when a join under another nickname completes, so it is read under the lock
+// that the presence handler holds while it does that.
+func (c *Channel) occupant() jid.JID {
+	c.client.managedM.Lock()
+	defer c.client.managedM.Unlock()
 	return c.addr
 }
 
@@ -80,8 +90,8 @@ func (c *Channel) LeavePresence(ctx context.Context, status string, p stanza.Pre
 	if p.Type != stanza.UnavailablePresence {
 		p.Type = stanza.UnavailablePresence
 	}
-	if !p.To.Equal(c.addr) {
-		p.To = c.addr
+	if addr := c.occupant(); !p.To.Equal(addr) {
+		p.To = addr
 	}
 	if p.ID == "" {
 		p.ID = attr.RandomID()
@@ -162,7 +172,7 @@ func (c *Channel) LeavePresence(ctx context.Context, status string, p stanza.Pre
 // block all unrecognized JIDs) see the Invite function.
 func (c *Channel) Invite(ctx context.Context, reason string, to jid.JID) error {
 	return c.session.Send(ctx, stanza.Message{
-		To:   c.addr.Bare(),
+		To:   c.occupant().Bare(),
 		Type: stanza.NormalMessage,
 	}.Wrap(Invitation{
 		JID:      to,
@@ -200,7 +210,7 @@ func (c *Channel) SetAffiliation(ctx context.Context, a Affiliation, j jid.JID, 
 	)
 	return c.session.UnmarshalIQElement(ctx, payload, stanza.IQ{
 		Type: stanza.SetIQ,
-		To:   c.addr.Bare(),
+		To:   c.occupant().Bare(),
 	}, nil)
 }
 
@@ -228,37 +238,37 @@ func (c *Channel) JoinPresence(ctx context.Context, p stanza.Presence, opt ...Op
 		o(&conf)
 	}
 	c.pass = conf.password
-	newAddr := c.addr
+	newAddr := c.occupant()
 	if conf.newNick != "" {
 		var err error
-		newAddr, err = c.addr.WithResource(conf.newNick)
+		newAddr, err = newAddr.WithResource(conf.newNick)
 		if err != nil {
 			return err
 		}
 	}
 
-	// Register (or re-register) the channel under the occupant JID that is
-	// requested, which is where the room's self-presence will come from.
+	// Register the channel under the occupant JID that is requested, which is
+	// where the room's self-presence will come from. If the channel is joined
+	// under another nickname it also stays registered under that one until the
+	// room confirms the change: until then (and if the room refuses) the old
+	// nickname is the one we hold.
+	key := newAddr.String()
 	c.client.managedM.Lock()
 	if c.client.managed == nil {
 		c.client.managed = make(map[string]*Channel)
 	}
-	if other, ok := c.client.managed[newAddr.String()]; ok && other != c {
+	if other, ok := c.client.managed[key]; ok && other != c {
 		c.client.managedM.Unlock()
 		return ErrOccupantInUse
 	}
-	if old := c.addr.String(); old != newAddr.String() && c.client.managed[old] == c {
-		delete(c.client.managed, old)
-	}
-	c.addr = newAddr
-	c.client.managed[c.addr.String()] = c
+	c.client.managed[key] = c
 	// A new stay in the room begins: forget a departure nobody waited for.
 	select {
 	case <-c.depart:
 	default:
 	}
 	c.client.managedM.Unlock()
-	p.To = c.addr
+	p.To = newAddr
 
 	ctx, cancel := context.WithCancel(ctx)
 	defer cancel()
@@ -268,6 +278,7 @@ func (c *Channel) JoinPresence(ctx context.Context, p stanza.Presence, opt ...Op
 	joinCtx := joinCtx{
 		done: ctx.Done(),
 		j:    joinChan,
+		key:  key,
 	}
 	select {
 	case c.join <- joinCtx:
@@ -315,8 +326,9 @@ func (c *Channel) JoinPresence(ctx context.Context, p stanza.Presence, opt ...Op
 	verifhook.Yield("muc.join.select")
 	select {
 	case joinErr = <-errChan:
-	case roomAddr := <-joinChan:
-		c.addr = roomAddr
+	case <-joinChan:
+		// The presence handler has recorded the new state (address, membership)
+		// before completing the hand-off.
 		return nil
 	case <-ctx.Done():
 		joinErr = ctx.Err()
@@ -325,20 +337,21 @@ func (c *Channel) JoinPresence(ctx context.Context, p stanza.Presence, opt ...Op
 	// Release the presence handler if it is offering us the self-presence at this
 	// very moment, then forget the attempt.
 	cancel()
-	c.abandonJoin()
+	c.abandonJoin(key)
 	return joinErr
 }
 
 // abandonJoin removes what a join that did not complete leaves behind: its
 // hand-off request, if the presence handler has not picked it up, and the
-// registration of the channel unless it is still joined from an earlier call.
-func (c *Channel) abandonJoin() {
+// registration under the requested occupant JID unless that is the one the
+// channel is still joined under from an earlier call.
+func (c *Channel) abandonJoin(key string) {
 	select {
 	case <-c.join:
 	default:
 	}
 	c.client.managedM.Lock()
-	if key := c.addr.String(); !c.joined && c.client.managed[key] == c {
+	if c.client.managed[key] == c && !(c.joined && c.addr.String() == key) {
 		delete(c.client.managed, key)
 	}
 	c.client.managedM.Unlock()
@@ -355,7 +368,7 @@ func (c *Channel) Subject(ctx context.Context, subject string) error {
 // message stanza. Changing the receipient or type has no effect.
 func (c *Channel) SubjectMessage(ctx context.Context, subject string, m stanza.Message) error {
 	m.Type = stanza.GroupChatMessage
-	m.To = c.addr.Bare()
+	m.To = c.occupant().Bare()
 	return c.session.Send(ctx, m.Wrap(xmlstream.Wrap(
 		xmlstream.Token(xml.CharData(subject)),
 		xml.StartElement{Name: xml.Name{Local: "subject"}},
